@@ -100,7 +100,19 @@ type funcResult struct {
 	retGuard string
 }
 
+// verifyFunc: two passes over the same function. The first discovers the
+// memory components the function touches; the second is the verification, with
+// all of them declared up front (so that loop havoc and frame formulas are
+// complete).
 func (p *Program) verifyFunc(con *Contract) (res *funcResult) {
+	first := p.verifyFuncPass(con, nil)
+	if first.err != "" || p.fns[con.Full] == nil {
+		return first
+	}
+	return p.verifyFuncPass(con, first.vc)
+}
+
+func (p *Program) verifyFuncPass(con *Contract, prev *VC) (res *funcResult) {
 	fn := p.fns[con.Full]
 	vc := newVC(p, con.FuncName)
 	res = &funcResult{vc: vc, con: con}
@@ -127,6 +139,9 @@ func (p *Program) verifyFunc(con *Contract) (res *funcResult) {
 	fr.con = con
 	mem := newMem("0")
 	vc.brkComp()
+	if prev != nil {
+		vc.preRegister(prev)
+	}
 	vc.assume(app("<", "0", vc.get(mem, "brk")))
 	vc.brk0 = vc.get(mem, "brk")
 	for _, prm := range fn.Params {
@@ -226,6 +241,10 @@ func (p *Program) verifyFunc(con *Contract) (res *funcResult) {
 		for _, cl := range con.clauses("panics_iff") {
 			c := penv.withMem(fr.entry).evalBool(cl.Expr)
 			vc.oblige("panics_iff←", fmt.Sprintf("%s/panics_iff←[%s]", con.FuncName, clauseLabel(cl)), gRet, not(c), fmt.Sprintf("%s:%d", cl.File, cl.Line))
+		}
+		for _, cl := range con.clauses("panics_if") {
+			c := penv.withMem(fr.entry).evalBool(cl.Expr)
+			vc.oblige("panics_if", fmt.Sprintf("%s/panics_if[%s]", con.FuncName, clauseLabel(cl)), gRet, not(c), fmt.Sprintf("%s:%d", cl.File, cl.Line))
 		}
 		if !noreturn {
 			fr.frameObligations(con, penv, gRet, memRet)
